@@ -98,6 +98,8 @@ def instances(rng, tier):
     out.append(s)
     s = base_spec("prefixed_half", flags=["fixed_objective_half"])
     out.append(s)
+    s = base_spec("orphan_gene", flags=["orphan_gene"])    # a gene of the model that no rule uses any more
+    out.append(s)
     # seeded variations of the bounds / objective
     nvar = 3 if tier == "quick" else 12
     for i in range(nvar):
@@ -136,6 +138,12 @@ def build(spec):
     m.add_reactions(rs)
     m.objective = {m.reactions.get_by_id(k): v for k, v in spec["objective"].items()}
     m.objective_direction = spec["direction"]
+    if "orphan_gene" in spec["flags"]:
+        # a rule that named one more gene for a while: the gene stays in model.genes without any reaction (documented)
+        r = m.reactions.get_by_id("R2")
+        old = r.gene_reaction_rule
+        r.gene_reaction_rule = "(%s) or zz_orphan" % old
+        r.gene_reaction_rule = old
     if "fixed_objective" in spec["flags"]:
         from cobra.util.solver import fix_objective_as_constraint
         fix_objective_as_constraint(m, fraction=1.0)
